@@ -117,7 +117,10 @@ type Result<T> = std::result::Result<T, Error>;
 			&&& string_bytes(res->Ok_0).len() == rest[0] && string_bytes(res->Ok_0).len() <= 255
 			&&& !(*final(r)).hit_eof()
 		}),
+		// completeness: a length byte followed by that many bytes of valid UTF-8 is accepted (lengths 0..255, whatever follows)
+		({ let rest = (*old(r)).rest(); rest.len() >= 1 && rest.len() >= 1 + rest[0] && valid_utf8(rest.subrange(1, 1 + rest[0] as int)) }) ==> res is Ok /*[C16.well_formed_string_accepted]*/,
 //@end
+pub open spec fn ustring_ok(rest: Seq<u8>) -> bool { rest.len() >= 1 && rest.len() >= 1 + rest[0] && valid_utf8(rest.subrange(1, 1 + rest[0] as int)) }
 
 // no map anywhere in the tree was built with a repeated key (C16: "with distinct keys per map")
 pub open spec fn val_nodup(v: Value) -> bool decreases v {
@@ -152,6 +155,9 @@ pub proof fn lemma_entries_push(es: Seq<(String, Value)>, e: (String, Value))
 		res is Ok && res->Ok_0 is Some ==> (*final(r)).rest() == skip((*old(r)).rest(), (enc_bytes(string_bytes(res->Ok_0->Some_0))).len() as int) && (*old(r)).rest().len() >= (enc_bytes(string_bytes(res->Ok_0->Some_0))).len(),
 		res is Ok && res->Ok_0 is None ==> (*final(r)).consumed() == (*old(r)).consumed() + seq![0x7du8] /*[C16.map_ends_at_closing_brace]*/,
 		res is Ok && res->Ok_0 is None ==> (*final(r)).rest() == skip((*old(r)).rest(), (seq![0x7du8]).len() as int) && (*old(r)).rest().len() >= (seq![0x7du8]).len(),
+		// completeness: the closing brace ends the map, and a U-marked well-formed string is a key
+		(*old(r)).rest().len() >= 1 && (*old(r)).rest()[0] == 0x7d ==> res is Ok && res->Ok_0 is None /*[C16.closing_brace_accepted]*/,
+		(*old(r)).rest().len() >= 1 && (*old(r)).rest()[0] == 0x55 && ustring_ok(skip((*old(r)).rest(), 1)) ==> res is Ok && res->Ok_0 is Some /*[C16.well_formed_key_accepted]*/,
 //@end
 // C06 (stack depth): the two mutually recursive functions carry the nesting level; their termination measure is
 // MAX_DEPTH + 1 - depth, so the depth of the recursion is bounded by a constant whatever the input holds
@@ -164,6 +170,9 @@ pub proof fn lemma_entries_push(es: Seq<(String, Value)>, e: (String, Value))
 		res is Ok ==> (*old(r)).consumed().is_prefix_of((*final(r)).consumed()),
 		res is Ok && val_nodup(res->Ok_0) ==> (*final(r)).consumed() == (*old(r)).consumed() + enc_val(res->Ok_0) /*[C16.value_bytes_are_its_encoding]*/,
 		res is Ok && val_nodup(res->Ok_0) ==> (*final(r)).rest() == skip((*old(r)).rest(), (enc_val(res->Ok_0)).len() as int) && (*old(r)).rest().len() >= (enc_val(res->Ok_0)).len(),
+		// completeness of the leaves: every 32-bit integer and every well-formed string value is accepted
+		(*old(r)).rest().len() >= 5 && (*old(r)).rest()[0] == 0x6c ==> res is Ok && res->Ok_0 is Number /*[C16.every_i32_accepted]*/,
+		(*old(r)).rest().len() >= 2 && (*old(r)).rest()[0] == 0x53 && (*old(r)).rest()[1] == 0x55 && ustring_ok(skip((*old(r)).rest(), 2)) ==> res is Ok && res->Ok_0 is String /*[C16.well_formed_string_value_accepted]*/,
 	decreases MAX_DEPTH + 1 - depth, 0int,
 //@after let ret__
 	proof {
